@@ -282,9 +282,7 @@ func c11(c *evid.Ctx) {
 		n.Close()
 	}
 	c11bursts(c)
-	if c.Counter("get_peers replies with values") == 0 {
-		c.Inconclusive("no get_peers reply with values observed")
-	}
+	c.Floor("get_peers replies with values", 1)
 }
 
 
